@@ -8,7 +8,7 @@ CONSTANTS
   TolSet = {"loose", "normal", "strict", "lapack"}
   MssKinds = {"default", "below", "tight", "mid", "bse", "huge"}
   IterMaxs = {50, 3}
-  SigKinds = {"default", "wide"}
+  SigKinds = {"default", "wide", "tight"}
   ModeSet = {"SYMM", "HAM"}
   Explore = FALSE
   Emit = TRUE
